@@ -9,6 +9,9 @@ use {
   io::Write,
 };
 
+#[cfg(ordinals_ord_verif)]
+mod verif;
+
 const MAX_COMPRESSED_PROPERTIES_SIZE: usize = 4_000_000;
 const MAX_PROPERTIES_COMPRESSION_RATIO: usize = 30;
 
